@@ -746,6 +746,14 @@ func buildScript(seed uint64, p *ScriptPlan) (*built, error) {
 			ct, _ := s2.SealRaw(aad, encoded)
 			e.Enc, e.Payload = s2.Enc, ct
 			o2.Exts[pair.EchIdx].Data = e.Bytes()
+		case "sid-grown":
+			// octets added behind a full-length legacy_session_id after sealing (not a
+			// legal hello any more; a parser that keeps 32 octets must not seal its
+			// eyes to the rest)
+			if len(o2.SessionID) != 32 {
+				return nil, errSkip
+			}
+			o2.SessionID = append(append([]byte(nil), o2.SessionID...), core.Bytes(r, 1+m.A%9)...)
 		case "outer-ech-empty":
 			o2.Exts[pair.EchIdx].Data = nil // the extension is there, its body is gone
 		case "ech-empty-enc":
